@@ -105,6 +105,13 @@ def replay(rec, ctx):
         bad("missing-species-not-reported", f"needs {rec['needs']}")
         return viol
     samples = [float(x) for x in out.samples]
+    base_level = max(max(samples), 1e-30) * 0.5
+    sp2 = Spectrum(c03.LO, c03.HI, c03.BINS)
+    sp2.samples[:] = base_level
+    out2 = model.emission(Point3D(0, 0, 0.5), Point3D(0.1, 0.2, 0.3), bdir, Vector3D(1, 0, 0), sp2)
+    inc = [float(x) - base_level for x in out2.samples]
+    if any(abs(a - b) > 1e-9 * max(abs(base_level), abs(b)) for a, b in zip(inc, samples)):
+        bad("does-not-add-to-the-spectrum-it-is-given", "the increase on a pre-filled spectrum differs from the emission into an empty one")
     integral = sum(samples) * (c03.HI - c03.LO) / c03.BINS
     num, den = rec["beam_total"]
     want = (float(Fraction(num, den)) if den else 0.0) * nu * nu * EC.UNIT / (4 * math.pi)
